@@ -84,7 +84,7 @@ class RSocketClient(RSocketBase):
             await self._on_connection_error(exception)
             return
 
-        return await super().connect()
+        return self
 
     async def _stop_tasks(self):
         await super()._stop_tasks()
@@ -97,6 +97,10 @@ class RSocketClient(RSocketBase):
 
             if new_transport is None:
                 raise RSocketNoAvailableTransport()
+
+            # SETUP is queued before the sender task gets to see the transport: a request issued
+            # while the transport is still connecting must not overtake it.
+            await super().connect()
 
             self._next_transport.set_result(new_transport)
             transport = await self._current_transport()
